@@ -496,16 +496,40 @@ func doCrosscheck(id string, maxpaths int) int {
 			secs                                                       float64
 		}
 		var got []sum
+		var verdicts []map[uint64]sym.Result
 		kinds := []string{"z3", "z3-new", "cvc5"}
 		for _, k := range kinds {
+			sym.QueryRecord = map[uint64]sym.Result{}
 			res := interp.Explore(l.pkgs[h.Pkg], f, interp.Options{Workers: 1, MaxPaths: maxpaths, Solver: k})
+			verdicts = append(verdicts, sym.QueryRecord)
+			sym.QueryRecord = nil
 			got = append(got, sum{res.Paths, res.Completed, res.Infeasible, res.Solver.Sat, res.Solver.Unsat, res.Solver.Unknown, res.Solver.Errors, len(res.Violations), res.Solver.Time.Seconds()})
 		}
 		same := true
+		note := ""
 		for k := 1; k < len(got); k++ {
 			a, b := got[0], got[k]
-			if a.paths != b.paths || a.completed != b.completed || a.infeasible != b.infeasible || a.sat != b.sat || a.unsat != b.unsat || a.viol != b.viol || b.unknown != 0 || b.errors != 0 {
+			// the same query must get the same verdict from every solver; which queries are asked may
+			// differ where the exploration follows a model (concretised choices), so totals are compared
+			// only through the queries both solvers saw
+			common, differ := 0, 0
+			for q, va := range verdicts[0] {
+				if vb, ok := verdicts[k][q]; ok {
+					common++
+					if va != vb {
+						differ++
+					}
+				}
+			}
+			if differ > 0 || a.viol != b.viol || b.unknown != 0 || b.errors != 0 || a.unknown != 0 || a.errors != 0 {
 				same = false
+			}
+			if a.paths != b.paths || a.completed != b.completed || a.infeasible != b.infeasible || a.sat != b.sat || a.unsat != b.unsat {
+				// different order of exploration under the cap: acceptable only if most queries were still shared
+				if common*2 < len(verdicts[0]) {
+					same = false
+				}
+				note += fmt.Sprintf(" [%s: %d/%d queries in common, %d verdicts differ]", kinds[k], common, len(verdicts[0]), differ)
 			}
 		}
 		status := "AGREE"
@@ -517,7 +541,7 @@ func doCrosscheck(id string, maxpaths int) int {
 		for k, g := range got {
 			fmt.Printf(" | %s paths=%d sat=%d unsat=%d unknown=%d errors=%d viol=%d %.1fs", kinds[k], g.paths, g.sat, g.unsat, g.unknown, g.errors, g.viol, g.secs)
 		}
-		fmt.Println()
+		fmt.Println(note)
 	}
 	if bad > 0 {
 		return 1
